@@ -20,7 +20,10 @@ Diag(rec) ==
     map       |-> f = rec.xkeys /\ FlatVals(t) = rec.xvals,
     keylist   |-> rec.klist = f,
     lookups   |-> LookupsAgree(rec.look, rec.xkeys, rec.xvals),
-    result    |-> rec.kind # "step" \/ rec.res = rec.xres,
+    result    |-> rec.kind # "step" \/ (rec.res.ok = rec.xres.ok /\ rec.res.empty = rec.xres.empty /\ rec.res.rk = rec.xres.rk
+                                        /\ rec.res.fail = rec.xres.fail /\ (rec.res.fail \/ rec.res.err = "")),
+    (* an operation that returns an error leaves the tree (keys, values, limits, structure, String()) as it was *)
+    atomic    |-> rec.kind # "step" \/ rec.res.err = "" \/ (t = rec.pre /\ rec.str = rec.prestr),
     preserved |-> rec.kind # "reread" \/ t = rec.pre ]
 Judge(rec) == LET d == Diag(rec) IN \A c \in DOMAIN d : d[c]
 RecordOK == l <= Len(Trace) =>
